@@ -316,7 +316,9 @@ sqf::runtime::runtime::result sqf::runtime::runtime::execute(sqf::runtime::runti
             m_is_exit_requested = false;
             m_run_timestamp = std::chrono::system_clock::now();
             m_is_halt_requested = false;
-            auto scopeNum = m_context_active->frames_size() - 1;
+            // Without a script there is nothing to leave
+            res = result::empty;
+            auto scopeNum = m_contexts.empty() || context_active().frames_size() == 0 ? 0 : context_active().frames_size() - 1;
             m_state = state::running;
             while (!m_is_exit_requested && !m_is_halt_requested && !m_contexts.empty())
             {
@@ -326,7 +328,7 @@ sqf::runtime::runtime::result sqf::runtime::runtime::execute(sqf::runtime::runti
                 {
                     break;
                 }
-                if (m_context_active->frames_size() <= scopeNum)
+                if (context_active().frames_size() <= scopeNum)
                 {
                     break;
                 }
